@@ -70,7 +70,7 @@ PROPS['C17'] = dict(
     theorems=[('Properties.C17', ['C17_table_is_reference', 'C17_strict_accepts_iff_spec', 'C17_warn_returns_record_with_all_defects', 'C17_warn_findings_iff_strict_rejects', 'C17_no_defect_iff_accepted', 'C17_ignore_no_findings'])],
     classify=c17_classify,
     spec_project=c17_project,
-    rule='(1) exhaustive: every known field x 9 record types (8 + unknown) x 3 versions (1.0, 1.1, unknown) x multiplicity {1,2} x {valid, invalid} value, policies alternating warn/fail = 5184 header sets; (2) seeded random header sets with missing mandatory fields, 0-4 extra fields with valid/invalid values, shuffled; distinct = distinct implementation observations; non-trivial = validation went past the record-type resolution',
+    rule='(1) exhaustive: every known field x 9 record types (8 + unknown) x 3 versions (1.0, 1.1, unknown) x multiplicity {1,2} x {valid, invalid} value, policies alternating warn/fail = 5184 header sets; (2) seeded random header sets with missing mandatory fields, 0-4 extra fields with valid/invalid values, shuffled; (3) every header set strict rejects is also sent through the parser under warn, which must return the record (warn-drops-record); distinct = distinct implementation observations; non-trivial = validation went past the record-type resolution',
     nontrivial=lambda c, o: not o.startswith('err:mt') and not o.startswith('err:ut'),
     stats=lambda c, o: ['spec:%s' % c.split()[1], o.split(';')[0].split(':')[0]] + (['finding:' + k for k in set(o.split(';f=')[1].split(';')[0].split(',')) if k] if ';f=' in o else []),
     level_text='Proved in Coq for every header set WarcFields can hold (canonical names), every WARC version id, every setting of the unknown-type axis and every behaviour of the value-syntax oracles: strict validation accepts exactly when the property\'s conditions hold (C17_strict_accepts_iff_spec); under warn the record is returned and the findings are exactly the list of defects, so exactly the rejected header sets produce findings (C17_warn_*); ignore produces none. The field table the model runs on is regenerated from headerfielddef.go on every run and proved equal to the hand-transcribed reference table (C17_table_is_reference); the executable specification is evaluated over the reference table. Model tied to validateHeader by an exhaustive field x type x version x multiplicity x valid/invalid sweep plus random multi-defect header sets.',
@@ -147,10 +147,10 @@ PROPS['C01'] = dict(
     domains=['rt', 'unm', 'build'],
     no_model={'rt': True},
     n=dict(quick=dict(rt=2500, unm=800, build=600), thorough=dict(rt=120000, unm=40000, build=30000)),
-    theorems=[('Properties.C01', ['C01_header_section_round_trips', 'C01_block_framing_ignores_block_content', 'C01_marker_is_accepted_and_consumed', 'C01_marshal_layout', 'C01_marshal_then_parse_returns_the_record', 'C01_strictly_built_header_is_accepted_under_every_policy', 'C01_strictly_built_record_round_trips_without_digests', 'C01_strictly_built_record_round_trips', 'C01_base16_meets_the_codec_contract', 'C01_gzip_member_round_trip'])],
+    theorems=[('Properties.C01', ['C01_header_section_round_trips', 'C01_block_framing_ignores_block_content', 'C01_marker_is_accepted_and_consumed', 'C01_marshal_layout', 'C01_marshal_then_parse_returns_the_record', 'C01_strictly_built_header_is_accepted_under_every_policy', 'C01_strictly_built_record_round_trips_without_digests', 'C01_strictly_built_record_round_trips', 'C01_base16_meets_the_codec_contract', 'C01_base32_and_base64_meet_the_codec_contract', 'C01_gzip_member_round_trip'])],
     kinds={'panic', 'roundtrip-lossy', 'remarshal-differs', 'policy-incoherent', 'trimmed-value'},
     rule='rt: 1-5 records accepted by the strict builder (all record types incl. unknown, both versions, generic/HTTP/warc-fields blocks with delimiter-imitating content, unknown fields with odd but clean values), built under a random policy, marshaled, concatenated plain or as gzip members, read back through ONE WarcFileReader under another policy (2/3 strict) with the same add/repair flags, compared (version, type, ordered fields, block) and marshaled again; spill thresholds around the block size; unm/build: model correspondence. distinct = distinct implementation observations',
-    level_text='Proved in Coq end to end. Reader side (C01_marshal_then_parse_returns_the_record): for every record that is valid for the reader (version 1.0/1.1, well-formed header fields that validate with no finding, truthful Content-Length, block that parses to itself, digests absent or valid), every following byte sequence and stream tail, under every policy setting, parsing the marshalled form returns exactly that record (version, type, ordered fields, block), no finding, and leaves exactly the following bytes - so blocks imitating CRLFCRLF or WARC/1.1 cannot confuse framing. Builder side (C01_strictly_built_record_round_trips): whatever the strict builder returns - clean header fields, ANY content, length and digest fields left to its add-missing options - is such a valid record for EVERY reader policy, hence is read back from its serialization as exactly that record with no error and no finding. The theorem states what it needs from the digest text codec as a contract (the text written for a digest is read back by newDigest, under any default encoding of the reader, as a digest whose declared hash validates against the same bytes, and is a clean header value); the contract is proved for base16 and every supported algorithm for any hash function returning alg_size bytes (C01_base16_meets_the_codec_contract); without digest fields no contract is needed (C01_..._without_digests). Two hypotheses the proof forced: the record type given to the builder is 0 or the one its WARC-Type field names (a defect found this way: Build did not adopt a type given only as header field; repaired, fix 71854e8), and the block policy is the one axis with a side condition (the builder rejects block problems or the reader ignores them; reading choice, DESIGN 0.6). Through the per-record gzip container at item level (a whole member whose payload is the serialized record) the same record comes back (C01_gzip_member_round_trip). PARTIAL in: the codec contract for base32/base64 (their decoders are oracles) and the compressed bytes of the gzip container (an oracle); re-marshalling equality follows in the model from record equality and is evaluated on the implementation. All of these are evaluated by the executable statement (build, marshal plain or gzip, parse under another policy, compare, marshal again)',
+    level_text='Proved in Coq end to end. Reader side (C01_marshal_then_parse_returns_the_record): for every record that is valid for the reader (version 1.0/1.1, well-formed header fields that validate with no finding, truthful Content-Length, block that parses to itself, digests absent or valid), every following byte sequence and stream tail, under every policy setting, parsing the marshalled form returns exactly that record (version, type, ordered fields, block), no finding, and leaves exactly the following bytes - so blocks imitating CRLFCRLF or WARC/1.1 cannot confuse framing. Builder side (C01_strictly_built_record_round_trips): whatever the strict builder returns - clean header fields, ANY content, length and digest fields left to its add-missing options - is such a valid record for EVERY reader policy, hence is read back from its serialization as exactly that record with no error and no finding. The theorem states what it needs from the digest text codec as a contract (the text written for a digest is read back by newDigest, under any default encoding of the reader, as a digest whose declared hash validates against the same bytes, and is a clean header value); the contract is proved for base16 and every supported algorithm for any hash function returning alg_size bytes (C01_base16_meets_the_codec_contract), and for base32 and base64 - whose encoders are modelled: recognition lengths, the trailing = of md5 texts, alphabets untouched by case mapping and header parsing - under the one assumption that the oracle decoders of the Go standard library invert the encoders on the hash values that occur (C01_base32_and_base64_meet_the_codec_contract); without digest fields no contract is needed (C01_..._without_digests). Two hypotheses the proof forced: the record type given to the builder is 0 or the one its WARC-Type field names (a defect found this way: Build did not adopt a type given only as header field; repaired, fix 71854e8), and the block policy is the one axis with a side condition (the builder rejects block problems or the reader ignores them; reading choice, DESIGN 0.6). Through the per-record gzip container at item level (a whole member whose payload is the serialized record) the same record comes back (C01_gzip_member_round_trip). PARTIAL in: the base32/base64 decoders (oracles assumed to invert the modelled encoders) and the compressed bytes of the gzip container (an oracle); re-marshalling equality follows in the model from record equality and is evaluated on the implementation. All of these are evaluated by the executable statement (build, marshal plain or gzip, parse under another policy, compare, marshal again)',
     level_note="Trusted: Coq kernel, extraction (ExtrOcamlBasic), harness and generators. Oracles: hash functions (Python hashlib), base32/base64 decoders, mime.WordDecoder, net/http header parsing, whatwg-url, net.ParseIP, time.Parse, Unicode case mapping; klauspost gzip (a member is its payload; a cut member yields a payload prefix then io.ErrUnexpectedEOF). bufio.Reader is remaining bytes + a persistent tail condition. Findings are compared by coarse kind derived from error texts. Reading of the text: the reader runs with the builder's add-missing/repair flags; values with edge blanks are a recorded known finding (trimmed), values with encoded-words are outside the property.",
     assumptions=[],
 )
@@ -202,20 +202,21 @@ PROPS['C08'] = dict(
 PROPS['C04'] = dict(
     id='C04', domains=['writer', 'unm', 'wcont'], no_model={'wcont': True},
     n=dict(quick=dict(writer=500, unm=1500, wcont=150), thorough=dict(writer=30000, unm=60000, wcont=5000)),
-    theorems=[('Properties.C04', ['C04_offsets_are_positions', 'C04_write_appends_at_the_reported_offset', 'C04_a_reported_offset_is_a_record_position'])],
+    theorems=[('Properties.C04', ['C04_offsets_are_positions', 'C04_write_appends_at_the_reported_offset', 'C04_a_reported_offset_is_a_record_position', 'C04_a_reader_at_the_reported_offset_returns_the_record'])],
     kinds={'panic', 'wrong-position', 'eof-offset', 'unreadable-file', 'reopen-mismatch', 'delivery-dependent'},
     rule='writer: 1 worker, 2-7 records of sizes around the limit, limits from half a record to unlimited, compression on/off, ratios 0.25-2, warcinfo on/off, flush on/off, 1-6 operations (single writes, batches of 2-3, the same record object written again, Rotate), a repeating name generator with empty in-progress suffix; every response is checked by opening a fresh reader at (file, offset) and by a sequential read (same offsets, EOF offset = file length); unm: for every cleanly read record of every generated stream (junk between records, plain and gzip) a fresh reader opened at the reported offset must return the same record',
-    level_text="Proved in Coq for every sequence of Write (single, batched, repeated objects) and Rotate, every limit/compression/warcinfo configuration and every injective name generator: every response without error names a file that in the end contains the serialized (stamped) record as exactly one entry starting at exactly the reported offset, with BytesWritten its uncompressed length (C04_offsets_are_positions, by an invariant over all reachable writer states); Write appends at the end of the current file, whose size is the reported offset. That a reader positioned there returns that record is the subject of C01 (now proved end to end) and is evaluated on the implementation for every response. Reader side, last sentence (C04_a_reported_offset_is_a_record_position): for every plain stream and option setting, whatever offset Unmarshal reports for a record - also after skipping junk - is a position from which a fresh reader returns that same record (same record, error state and rest of stream; the record parser is blind to the findings it is handed). The writer model agrees with the implementation on names, offsets, sizes (incl. gzip member sizes) and callbacks for every generated sequence. The defect 'first record of a rotated file reports the size of the previous file' was found here and repaired.",
+    level_text="Proved in Coq for every sequence of Write (single, batched, repeated objects) and Rotate, every limit/compression/warcinfo configuration and every injective name generator: every response without error names a file that in the end contains the serialized (stamped) record as exactly one entry starting at exactly the reported offset, with BytesWritten its uncompressed length (C04_offsets_are_positions, by an invariant over all reachable writer states); Write appends at the end of the current file, whose size is the reported offset. Writer and reader are put together for uncompressed files (C04_a_reader_at_the_reported_offset_returns_the_record): after a Write without error and any further Writes and Rotates, a reader placed at the reported offset of the named file returns exactly the stamped record Write handed back, without error or finding, and stands at the next entry, provided the record is valid for the reader (the hypothesis of C01's reader theorem, met by what the strict builder returns); for compressed files the container is not modelled and the statement is evaluated on the implementation for every response. Reader side, last sentence (C04_a_reported_offset_is_a_record_position): for every plain stream and option setting, whatever offset Unmarshal reports for a record - also after skipping junk - is a position from which a fresh reader returns that same record (same record, error state and rest of stream; the record parser is blind to the findings it is handed). The writer model agrees with the implementation on names, offsets, sizes (incl. gzip member sizes) and callbacks for every generated sequence. The defect 'first record of a rotated file reports the size of the previous file' was found here and repaired.",
     level_note='Trusted: Coq kernel, extraction, harness. The file system is abstract: a file is the list of records appended to it; entry sizes are plain lengths or the gzip member size (oracle: klauspost gzip at the default level, computed outside gowarc). float64 ratio scaling is an oracle. The name generator is assumed injective (PatternNameGenerator with {serial}). os.OpenFile/Stat/Sync/Close/Rename are assumed to behave as the model says; their failure paths are not modelled. Concurrent workers are C09/C10.',
     assumptions=[],
 )
 PROPS['C13'] = dict(
     id='C13', domains=['writer', 'wcont', 'names'], no_model={'wcont': True, 'names': True},
     n=dict(quick=dict(writer=600, wcont=150, names=40), thorough=dict(writer=30000, wcont=5000, names=2000)),
-    theorems=[('Properties.C13', ['C13_every_file_begins_with_its_warcinfo', 'C13_fit_rule', 'C13_names_and_in_progress_state', 'C13_callback_arguments'])],
+    theorems=[('Properties.C13', ['C13_every_file_begins_with_its_warcinfo', 'C13_fit_rule', 'C13_names_and_in_progress_state', 'C13_callback_arguments', 'C13_names_distinct_under_every_schedule', 'C13_int32_serials_distinct_within_2_32_calls', 'C13_load_then_store_refuted']),
+              ('Properties.SerialTable', ['C13_serial_is_taken_by_one_atomic_add'])],
     kinds={'panic', 'warcinfo-rule', 'fit-rule', 'bad-name', 'open-file-left', 'callback-args', 'unreadable-file'},
-    rule='writer domain (see C04): files are read back sequentially: first record is the warcinfo naming the file, exactly one, all others carry its id; no record appended beyond the limit to a file that already holds data (scaled declared length); names unique, compression suffix iff compressed, no in-progress suffix after Close; callback gets final name, true size, warcinfo id',
-    level_text='Proved in Coq over all reachable states of the sequential writer: with a warcinfo generator every file begins with the warcinfo record built for its own name and every other record in it was stamped with the id of that record; a record is appended to a file that already holds data only if size + (scaled) declared length fits the limit, otherwise a new file is started; file names are exactly the names of the generator in order (never reused, for an injective generator), only the last file can be in progress; the callback receives final name, true size and warcinfo id. A record is one entry of one file by construction of the model (never split). Model tied to warcfile.go by exact agreement of responses, file sizes and callbacks on every generated sequence.',
+    rule='writer domain (see C04): files are read back sequentially: first record is the warcinfo naming the file, exactly one, all others carry its id; no record appended beyond the limit to a file that already holds data (scaled declared length); names unique, compression suffix iff compressed, no in-progress suffix after Close; callback gets final name, true size, warcinfo id; names domain: several goroutines call NewWarcfileName on one generator, all names returned must differ (bad-name)',
+    level_text='Proved in Coq over all reachable states of the sequential writer: with a warcinfo generator every file begins with the warcinfo record built for its own name and every other record in it was stamped with the id of that record; a record is appended to a file that already holds data only if size + (scaled) declared length fits the limit, otherwise a new file is started; file names are exactly the names of the generator in order (never reused, for an injective generator), only the last file can be in progress; the callback receives final name, true size and warcinfo id. A record is one entry of one file by construction of the model (never split). Callers sharing one generator (goroutines, several writers): with the serial taken by one atomic add the serials handed out under every schedule of any number of calls are c+1, c+2, ... without repetition, so names are pairwise different for a pattern injective in the serial (C13_names_distinct_under_every_schedule); load-then-store is refuted by a four-step schedule (C13_load_then_store_refuted); that the current source touches a Serial field only through sync/atomic and modifies it only by an atomic add is regenerated from the source on every run (C13_serial_is_taken_by_one_atomic_add); for the int32 counter of the code the same holds from any start value within 2^32 calls (C13_int32_serials_distinct_within_2_32_calls), beyond which serials repeat; the implementation is run with several goroutines on one generator (names domain). Model tied to warcfile.go by exact agreement of responses, file sizes and callbacks on every generated sequence.',
     level_note='Trusted: Coq kernel, extraction, harness. The file system is abstract: a file is the list of records appended to it; entry sizes are plain lengths or the gzip member size (oracle: klauspost gzip at the default level, computed outside gowarc). float64 ratio scaling is an oracle. The name generator is assumed injective (PatternNameGenerator with {serial}). os.OpenFile/Stat/Sync/Close/Rename are assumed to behave as the model says; their failure paths are not modelled. ',
     assumptions=[],
 )
@@ -223,10 +224,10 @@ PROPS['C13'] = dict(
 PROPS['C20'] = dict(
     id='C20', domains=['rev'],
     n=dict(quick=dict(rev=1500), thorough=dict(rev=60000)),
-    theorems=[('Properties.C20', ['C20_revisit_is_truthful', 'C20_merge_restores_the_original'])],
+    theorems=[('Properties.C20', ['C20_revisit_is_truthful', 'C20_merge_restores_the_original', 'C20_revisit_carries_payload_digest_and_reference', 'C20_revisit_ref_reads_back_the_reference'])],
     kinds={'panic', 'revisit-untruthful', 'revisit-roundtrip', 'merge-wrong', 'type-disagrees'},
     rule='rev: HTTP request and response records built with all four digest algorithms x three encodings, both WARC versions, spill thresholds from 1 byte to above the record (original in memory or spilled), protocol headers up to 9 KB (beyond one bufio buffer), WARC-Date with and without sub-second part and zone offset, the four profiles: CreateRevisitRef, ToRevisitRecord, RevisitRef, marshal, strict re-parse, Merge (of the derived or of the re-parsed revisit); executable statement checks block = protocol header, truthful Content-Length and block digest (independent Go crypto), original payload digest, reference fields, strict round trip, merged block and length, Type() vs WARC-Type',
-    level_text='Proved in Coq for every record, reference, option setting and oracle behaviour: when ToRevisitRecord succeeds the revisit block is exactly the protocol header, Content-Length is its length, WARC-Block-Digest is the configured digest of exactly those bytes, the type is revisit in both places and the profile is the reference\'s (C20_revisit_is_truthful); merging the revisit with its original reproduces the original\'s block bytes, record type (in Type() and in WARC-Type) and Content-Length (C20_merge_restores_the_original). The strict round trip of the revisit is checked by the executable statement (it composes C01\'s stages). Model tied to record.go/revisitblock.go by differential runs over fields and blocks of the revisit and merged records.',
+    level_text='Proved in Coq for every record, reference, option setting and oracle behaviour: when ToRevisitRecord succeeds the revisit block is exactly the protocol header, Content-Length is its length, WARC-Block-Digest is the configured digest of exactly those bytes, the type is revisit in both places and the profile is the reference\'s (C20_revisit_is_truthful); it carries the original\'s payload digest (for a resource record without one under the identical-payload profile its block digest), the reference\'s target id in angle brackets, target URI and date, and WARC-Truncated: length (C20_revisit_carries_payload_digest_and_reference), and RevisitRef() of it is the reference it was made from (C20_revisit_ref_reads_back_the_reference); merging the revisit with its original reproduces the original\'s block bytes, record type (in Type() and in WARC-Type) and Content-Length (C20_merge_restores_the_original). The strict round trip of the revisit is checked by the executable statement (it composes C01\'s stages). Model tied to record.go/revisitblock.go by differential runs over fields and blocks of the revisit and merged records.',
     level_note='Trusted: Coq kernel, extraction, harness. Oracles: hash functions, classification of the profile URIs, Unicode case mapping. The field names involved are distinct canonical keys of the field table regenerated from /repo (finite check by vm_compute). Merge models the block digest field as the original\'s field value (equal to its computed digest for records the builder completed).',
     assumptions=['the original was completed by the builder (its digest fields are the computed ones)'],
 )
@@ -292,7 +293,7 @@ PROPS['C10'] = dict(
 PROPS['C12'] = dict(
     id='C12', domains=['crash'], no_model={'crash': True},
     n=dict(quick=dict(crash=300), thorough=dict(crash=10000)),
-    theorems=[('Properties.C12', ['C12_final_files_are_never_written_again', 'C12_acknowledged_records_are_already_appended'])],
+    theorems=[('Properties.C12', ['C12_final_files_are_never_written_again', 'C12_acknowledged_records_are_already_appended', 'C12_a_final_file_holds_all_its_records_at_every_kill_point'])],
     kinds={'panic', 'crash-unsafe'},
     rule='crash: writer sequences as in C04 under the verif hooks; at EVERY file-system effect point (create, first and second half of every write, sync, close, rename, callback) the directory is snapshotted (= what a kill at that instant leaves): final-named files equal their final content, in-progress files are prefixes of their final content, every record acknowledged before the snapshot is fully present at its reported file and offset; scenarios: plain, a leftover in-progress file of an earlier killed process under the first name, Rotate from another goroutine while a record is half written',
     level_text='PARTIAL (the OS half - what a killed process leaves on disk, rename atomicity - is assumed and only observed). Proved in Coq about the effect trace of every writer run: after a file has been renamed to its final name no record is ever appended to it again, so at every kill point final-named files are complete; appends are whole records to the single in-progress file; a record is acknowledged only after its append. The effect points of the implementation are instrumented with the verif hooks and every snapshot is checked against the final directory.',
